@@ -366,14 +366,19 @@ CLAIMED = {
         technique="Coq proof (per-site comparison rule) + the real tool run on identical and on single-site-corrupted binaries",
         design_ref="DESIGN.md §3 C34"),
     "C22": dict(
-        text="S1 (narrow): the one parser wild owns outright that is pure — the response-file / option-string tokenizer — as a total Gallina function over code points returning arguments or one "
-             "of four errors. Theorems: every input is answered (by construction); every list of non-empty arguments over all code points, written with a backslash before each quote, white-space "
-             "character and backslash, reads back exactly; each of the four errors has an input. The rest of the property (ELF, archive, linker-script, version-script parsing, argument "
-             "handling: no panic, abort, signal or hang on any bytes) cannot be carried by a model of this size and is decided by mutation runs of the real binary.",
-        note="Partial: only the tokenizer is modelled and tied (same arguments or same error on generated strings, through a hook with catch_unwind). Every other parser is exercised by targeted "
-             "byte mutations, truncations and token-level mutations of valid inputs and by random argument lists, under a 20 s limit; the archive iterator is also driven directly on every "
-             "prefix and on header mutations. A sampled search never proves absence of crashes.",
-        technique="Coq proof (tokenizer round trip and totality) + model-vs-implementation on generated strings + mutation runs of the real binary",
+        text="S1 for the parsers wild owns outright. (a) The response-file / option-string tokenizer as a total Gallina function over code points returning arguments or one of four "
+             "errors: every input is answered; every list of non-empty arguments over all code points, written with a backslash before each quote, white-space character and backslash, "
+             "reads back exactly; each of the four errors has an input. (b) The version-script and export-list parsers (parse_version_script, parse_version_section, parse_matcher with its "
+             "extern blocks, parse_export_list, skip_comments_and_whitespace) as Gallina functions over byte lists in which every loop of the Rust code is a fuelled recursion. Theorems: for "
+             "EVERY byte string and every behaviour of the glob crate both parsers end within length+1 iterations of each loop (no loop goes round without consuming a byte); the pinned tree's "
+             "extern loop is refuted (no fuel suffices at end of input; repaired in /repo). The rest of the property (ELF, archive, linker-script parsing, argument handling: no panic, abort, "
+             "signal or hang on any bytes) is decided by mutation runs and by amplified inputs (one construct nested or repeated up to 200000 times) of the real binary.",
+        note="Partial: the tokenizer and the version-script / export-list parsers are modelled and tied (same result — parsed structure rendered canonically, or error — on generated and "
+             "mutated texts through hooks with catch_unwind; whether the glob crate accepts a pattern is a parameter of the model and such cases are skipped in the comparison). Stack depth "
+             "is not a notion of the model: recursion depth is exercised by the amplified inputs. Every other parser is exercised by targeted byte mutations, truncations and token-level "
+             "mutations of valid inputs and by random argument lists, under a 20 s limit; the archive iterator is also driven directly on every prefix and on header mutations. A sampled "
+             "search never proves absence of crashes.",
+        technique="Coq proof (tokenizer round trip and totality; termination of the version-script and export-list parsers for all inputs by a consumed-bytes measure) + model-vs-implementation on generated and mutated texts + mutation and amplification runs of the real binary",
         design_ref="DESIGN.md §3 C22"),
     "C10": dict(
         text="S1: Gallina model of what wild writes for unwinding (an FDE is kept iff the section its pc-begin points into was loaded and is not empty; one search-table entry per kept FDE with "
